@@ -95,17 +95,15 @@ theorem queryByPosition_identity (src : Source) (q : PosQ) (hh : ∀ c ∈ src.c
   obtain ⟨se, _, h⟩ := bind_ok h
   obtain ⟨s, e⟩ := se
   simp only [] at h
-  obtain ⟨bb, _, h⟩ := bind_ok h
-  obtain ⟨bs, be⟩ := bb
-  simp only [] at h
   obtain ⟨kept, hkept, h⟩ := bind_ok h
   have hsub := queryKept_sub src s e q.cw q.codingOnly kept hkept
-  obtain ⟨ls, _, h⟩ := bind_ok h
+  obtain ⟨sr, _, h⟩ := bind_ok h
   have key : ∀ a b, buildNew src kept a b = .ok r → ∀ rc ∈ r.children, ∃ c ∈ src.children, SameMember rc c := by
     intro a b hb rc hrc
     obtain ⟨c, hc, hs⟩ := buildNew_same src kept a b r (fun c hc => hh c (hsub c hc)) hb rc hrc
     exact ⟨c, hsub c hc, hs⟩
-  split at h <;> split at h <;> first | cases h | exact key _ _ h
+  repeat' (split at h)
+  all_goals first | cases h | exact key _ _ h
 
 theorem returnForIdQueries_same (src : Source) (kept : List Child) (hk : ∀ c ∈ kept, ChildHull c) (r : Result)
     (h : returnForIdQueries src kept = .ok r) : ∀ rc ∈ r.children, ∃ c ∈ kept, SameMember rc c := by
